@@ -529,7 +529,7 @@ func (d *hoDriver) mutatedProcess(h int64, round, proposer int, now time.Time, v
 		return tx
 	}
 	muts := []string{"reorder", "dupBlock", "dropBlock", "blockLater", "wrongParent", "wrongNumber", "wrongBeacon", "wrongProposer", "wrongRecipient",
-		"sysAdded", "sysRemoved", "sysAltered", "countByte", "reqGarbage", "gas0", "gas2", "futureTime", "engineInvalid", "engineSyncing", "tooMany", "empty",
+		"recipientPadded", "recipientShort", "sysAdded", "sysRemoved", "sysAltered", "countByte", "reqGarbage", "gas0", "gas2", "futureTime", "engineInvalid", "engineSyncing", "tooMany", "empty",
 		"garbageRest", "timeoutWrong", "badSig", "blob"}
 	mut := muts[r.Intn(len(muts))]
 	txs := append([][]byte{}, honest...)
@@ -578,6 +578,17 @@ func (d *hoDriver) mutatedProcess(h int64, round, proposer int, now time.Time, v
 	case "wrongRecipient":
 		p := clone()
 		p.FeeRecipient = hash32([]byte("someone"))[:20]
+		rehash(p)
+		txs = append([][]byte{blockTx(p, proposer, sim.SignOpts{})}, rest...)
+	case "recipientPadded", "recipientShort": // not the proposer's 20 bytes, although an address-sized view of it may look like them
+		p := clone()
+		if mut == "recipientPadded" {
+			pad := make([]byte, 12)
+			r.Read(pad)
+			p.FeeRecipient = append(pad, c.KR.Vals[proposer].Addr...)
+		} else {
+			p.FeeRecipient = append([]byte{}, c.KR.Vals[proposer].Addr[1:]...)
+		}
 		rehash(p)
 		txs = append([][]byte{blockTx(p, proposer, sim.SignOpts{})}, rest...)
 	case "sysAdded":
